@@ -83,6 +83,17 @@ def correspond(ctx):
         else:
             corpus.append(h.hash("pw"))
     corpus.append("plain text")
+    # ---- INI text and the (deprecated) float vary_rounds: every value two decimals can carry must come back as the same float
+    for v in (1.0, "100%", 0.5, "50%", 0.1, 0.25, 0.05, "5%", 0.9, 0.01):
+        for key in ("all__vary_rounds", "sha256_crypt__vary_rounds", "admin__sha256_crypt__vary_rounds"):
+            kw = {"schemes": ["sha256_crypt", "md5_crypt"], key: v}
+            try:
+                c = CryptContext(**kw)
+                c2 = CryptContext.from_string(c.to_string())
+                same = repr(sorted(c2.to_dict().items())) == repr(sorted(c.to_dict().items()))
+                o_rt.check("ini-float-vary", same, {"op": "ini-vary", "kwds": repr(kw)}, {"exported": c.to_string(), "reloaded": repr(c2.to_dict())}, "the same value and type")
+            except Exception as e:  # noqa: BLE001
+                o_rt.check("ini-float-vary", False, {"op": "ini-vary", "kwds": repr(kw)}, errname(e) + ": " + str(e)[:100], "round trip")
     # ---- round trips
     valid = []
     for _ in range(250 if not ctx.thorough else 3000):
@@ -93,7 +104,8 @@ def correspond(ctx):
             continue
         valid.append((kw, c))
         snap = snapshot(c, corpus)
-        has_float = any(isinstance(v, float) for v in c.to_dict().values())
+        # recorded finding: INI text renders floats with two decimals; only floats that do NOT survive that rendering are exempt
+        has_float = any(isinstance(v, float) and float("%.2f" % v) != v for v in c.to_dict().values())
         # an option no configured hasher consumes (only possible under the "all" pseudo-scheme, where unsupported options are ignored by
         # design) is stored as given and never coerced; INI text cannot carry its Python type.  Such a configuration is outside the
         # "survives INI" claim for value TYPES (its decisions are still compared through the dict / copy / update / ctx-source paths).
@@ -131,6 +143,31 @@ def correspond(ctx):
                 continue
             o_rt.check(how, same, {"op": "roundtrip", "how": how, "kwds": repr(kw)},
                        {k: snap2[k][:300] for k in snap2 if snap2[k] != snap[k]}, "identical to_dict()/to_string()/decisions")
+        # exported objects are copies: editing an exported dict (even followed by a FAILED load of it) changes nothing
+        try:
+            d = c.to_dict()
+            before = snapshot(c, corpus)
+            snapshot(c.copy(), corpus)
+        except Exception as e:  # noqa: BLE001
+            o_rt.check("context-still-usable", False, {"op": "roundtrip", "kwds": repr(kw)}, errname(e) + ": " + str(e)[:120], "a valid context can be exported and copied")
+            continue
+        d = c.to_dict()
+        before = snapshot(c, corpus)
+        touched = False
+        for k2, v2 in d.items():
+            if isinstance(v2, list):
+                v2.insert(rng.randrange(len(v2) + 1), "no_such_scheme_xyz")
+                touched = True
+        if touched:
+            o_rt.check("exported-dict-is-a-copy", snapshot(c, corpus) == before, {"op": "export-alias", "kwds": repr(kw)}, "context changed by editing its exported dict", "unchanged")
+            for how in ("load", "update"):
+                try:
+                    getattr(c, how)(d)
+                except Exception:  # noqa: BLE001
+                    pass
+                else:
+                    continue
+                o_fault.check("failed-" + how + "-of-edited-export", snapshot(c, corpus) == before, {"op": "export-alias-" + how, "kwds": repr(kw)}, "context changed", "unchanged after the failed change")
         # update replaces exactly the given keys
         if kw.get("schemes"):
             s0 = kw["schemes"][0]
@@ -176,8 +213,13 @@ def correspond(ctx):
     for kw, c0 in valid[: (60 if not ctx.thorough else 600)]:
         schemes = list(kw["schemes"])
         for tag, change in bad_changes:
-            c = c0.copy()
-            snap = snapshot(c, corpus)
+            try:
+                c = c0.copy()
+                snap = snapshot(c, corpus)
+            except Exception as e:  # noqa: BLE001
+                # the context was valid when it was built: it can no longer be copied, so an earlier (failed or harmless) operation changed it
+                o_fault.check("context-still-usable", False, {"op": "copy-after-history", "kwds": repr(kw)}, errname(e) + ": " + str(e)[:120], "a valid context stays valid")
+                break
             if change is None:
                 d = c.default_scheme()
                 if tag == "default-deprecated":
@@ -251,6 +293,11 @@ def correspond(ctx):
             raised = None
         except RuntimeError:
             raised = "RuntimeError"
+        except Exception as e:  # noqa: BLE001
+            # not the injected fault: a valid update of a context built from hasher OBJECTS (unregistered ones) failed
+            o_fault.check("update-keeps-hasher-objects", False, {"op": "update-hasher-objects", "k": k}, errname(e) + ": " + str(e)[:120], "the update succeeds (or fails with the injected error only)")
+            calls["boom"] = None
+            continue
         calls["boom"] = None
         after = {"dict": repr(sorted((kk, repr(v)) for kk, v in c.to_dict().items())), "id": c.identify("$fault_b$abcd"), "nu": c.needs_update("$fault_a$abcd")}
         if raised:
